@@ -8,6 +8,7 @@ package quic_test
 // packets (built by the independent wire observer, not by the code under test).
 
 import (
+	"bytes"
 	"context"
 	"fmt"
 	"io"
@@ -34,6 +35,10 @@ type c13Case struct {
 	Sched    simworld.Schedule `json:"schedule"`
 	Inject   string            `json:"inject,omitempty"` // vn vn-listing-offered retry-valid retry-badtag retry-wrong-odcid initial-close initial-garbage initial-other-scid
 	When     string            `json:"when,omitempty"`   // before | after (a genuine server packet was processed by the client)
+	// 0-RTT scenarios: this many additional unidirectional streams of EarlySize bytes each are written and
+	// closed before the handshake completes (more early data than the initial congestion window lets out at once)
+	EarlyStreams int `json:"early_streams,omitempty"`
+	EarlySize    int `json:"early_size,omitempty"`
 }
 
 const c13HandshakeIdle = 5 * time.Second
@@ -137,6 +142,16 @@ func c13Test(t *testing.T, race bool) {
 			cases = append(cases, c13Case{Name: fmt.Sprintf("k%d/%s/%s/%04d", len(fs), sc, cl, i), Scenario: sc, Client: cl, Sched: simworld.Schedule{Faults: fs}})
 		}
 	}
+	{
+		// early data volume: two thirds of the 0-RTT cases carry 3 / 40 / 90 extra early streams
+		vr := l.Rand("c13early")
+		for i := range cases {
+			if cases[i].Scenario == "0rtt-accept" || cases[i].Scenario == "0rtt-reject" {
+				cases[i].EarlyStreams = []int{0, 3, 40, 90}[vr.IntN(4)]
+				cases[i].EarlySize = []int{1, 200, 1000, 1300}[vr.IntN(4)]
+			}
+		}
+	}
 	if race {
 		// every 4th single-fault / injection case, every 40th multi-fault schedule
 		var sub []c13Case
@@ -174,7 +189,7 @@ func runC13(l *evlog.Log, c *evlog.Case, cs *c13Case, idx int) {
 	viol := func(sig, f string, a ...any) {
 		tr := map[string]any{"case": cs}
 		if world != nil {
-			tr["router"] = world.Router.Log
+			tr["router"] = world.Router.LogCopy()
 			if taps := world.Wire.Snapshot(); len(taps) > 0 {
 				tr["wire"] = taps[len(taps)-1].Describe(30)
 			}
@@ -373,7 +388,28 @@ func runC13(l *evlog.Log, c *evlog.Case, cs *c13Case, idx int) {
 	payloadID := fmt.Sprintf("early-%d", idx)
 	var earlyMu sync.Mutex
 	earlyRead := map[string]int{}
+	earlyKey := func(b []byte) string { // extra early streams carry "<id>|filler"
+		if i := bytes.IndexByte(b, '|'); i >= 0 {
+			return string(b[:i])
+		}
+		return string(b)
+	}
 	serve := func(ctx context.Context, sc *quic.Conn) {
+		go func() {
+			for {
+				s, err := sc.AcceptUniStream(ctx)
+				if err != nil {
+					return
+				}
+				go func() {
+					if b, err := io.ReadAll(s); err == nil {
+						earlyMu.Lock()
+						earlyRead[earlyKey(b)]++
+						earlyMu.Unlock()
+					}
+				}()
+			}
+		}()
 		// echo server: every stream is read to EOF and answered with the same bytes
 		for {
 			s, err := sc.AcceptStream(ctx)
@@ -488,6 +524,7 @@ func runC13(l *evlog.Log, c *evlog.Case, cs *c13Case, idx int) {
 	t0 := w.Router.Now()
 	var cc *quic.Conn
 	early := cs.Scenario == "0rtt-accept" || cs.Scenario == "0rtt-reject"
+	extraWritten := 0
 	if early {
 		cc, out.dialErr = w.DialEarly(ctx)
 	} else {
@@ -503,6 +540,17 @@ func runC13(l *evlog.Log, c *evlog.Case, cs *c13Case, idx int) {
 		var earlyErr error
 		if early {
 			// 0-RTT: write before the handshake completes
+			for k := 0; k < cs.EarlyStreams; k++ {
+				us, err := cc.OpenUniStream()
+				if err != nil {
+					break // stream limit remembered from the previous connection, or already rejected
+				}
+				msg := append([]byte(fmt.Sprintf("%s-u%d|", payloadID, k)), make([]byte, cs.EarlySize)...)
+				if _, err := us.Write(msg); err == nil {
+					extraWritten++
+				}
+				us.Close()
+			}
 			earlyErr = echo(ctx, cc, payloadID)
 			if earlyErr != nil && cs.Scenario == "0rtt-reject" {
 				// expected: rejected.  Continue on the next connection, without resending the payload.
@@ -530,6 +578,14 @@ func runC13(l *evlog.Log, c *evlog.Case, cs *c13Case, idx int) {
 			sc, out.acceptErr = a.c, a.err
 			if cc.Context().Err() == nil {
 				viol("accept-hung", "client handshake complete but Accept did not return within %s: %v", limit, a.err)
+			}
+		}
+		if earlyErr != nil {
+			// a call that failed because the connection ended returns before the connection's context is
+			// cancelled: "live" is only judged once the close has had time to finish
+			select {
+			case <-cc.Context().Done():
+			case <-time.After(time.Second):
 			}
 		}
 		if earlyErr != nil && cc.Context().Err() == nil {
@@ -593,6 +649,28 @@ func runC13(l *evlog.Log, c *evlog.Case, cs *c13Case, idx int) {
 			viol("0rtt-data-delivered-although-rejected", "the server application read the 0-RTT payload although 0-RTT was not accepted")
 		case n == 0 && used && out.echoOK:
 			viol("0rtt-data-lost-although-accepted", "0-RTT accepted on both sides, connection alive, but the payload never reached the server application")
+		}
+		// the additional early streams: never twice, never if rejected
+		if zeroRTTPackets > 0 && cs.EarlyStreams > 0 {
+			time.Sleep(2 * time.Second)
+			earlyMu.Lock()
+			delivered := 0
+			for k := 0; k < cs.EarlyStreams; k++ {
+				nk := earlyRead[fmt.Sprintf("%s-u%d", payloadID, k)]
+				if nk > 0 {
+					delivered++
+				}
+				if nk > 1 {
+					viol("0rtt-data-delivered-twice", "the server application read early stream %d of %d %d times", k, cs.EarlyStreams, nk)
+					break
+				}
+			}
+			earlyMu.Unlock()
+			if delivered > 0 && out.sstate != nil && !used {
+				viol("0rtt-data-delivered-although-rejected", "the server application read %d of the %d additional early streams (%d written) although 0-RTT was not accepted", delivered, cs.EarlyStreams, extraWritten)
+			}
+			l.Count("early_extra_streams_written", int64(extraWritten))
+			l.Count("early_extra_streams_delivered", int64(delivered))
 		}
 		if used {
 			l.Count("0rtt_accepted", 1)
